@@ -49,6 +49,9 @@ def states(kind, n, i, family):
         sels = (True, False, 1, 0, None, "x", "")
         truths = (None, 0.25, 0.75)
         vals = vals[:2]
+    if family == "permuted":
+        truths = (None, 0.25, 0.75)
+        vals = vals[:2] if kind == "ArbiterWeighted" else vals[:1]
     if family == "zeroimp":      # importances over the whole documented range [0.0, 1.0] incl. both ends, int and float zero
         imps = (0, 0.0, 0.5, 1.0)
         truths = (None, 0.25, 0.75)
@@ -100,7 +103,7 @@ def reference(kind, cfg, dt):
     return ("default",)
 
 
-def world(kind, n, dt_init):
+def world(kind, n, dt_init, perm=None):
     """Real House / Framer / Frame with one arbiter act resolved the way the builder's acts are."""
     from ioflo.base import housing, framing, acting, doing, globaling
     from ioflo.aid.odicting import odict
@@ -125,6 +128,14 @@ def world(kind, n, dt_init):
         sh = store.create("in.i%d" % i).create(value=0.0)
         shares.append(sh)
         inputs["t%d" % i] = ("in.i%d" % i, False, 1.0)
+    if perm:
+        # the group's selection / importance shares already exist with their fields in another order than the inputs
+        # (Arbiter.__init__ only creates missing fields); 'first' still means first in the declared inputs order
+        insels = store.create("arb.insels")
+        inimps = store.create("arb.inimps")
+        for j in perm:
+            insels.create(**{"t%d" % j: False})
+            inimps.create(**{"t%d" % j: 1.0})
     act = acting.Act(actor=kind, registrar=doing.Doer, inits=dict(output="out.arb", group="arb", inputs=inputs))
     frame.addByContext(act, globaling.RECUR)
     house.resolve()
@@ -134,9 +145,10 @@ def world(kind, n, dt_init):
     return act, arb, shares
 
 
-def show(kind, n, dt, cfg):
-    return "%s n=%d default_truth=%r inputs=[%s]" % (
-        kind, n, dt, "; ".join("sel=%r truth=%r imp=%r value=%r" % c for c in cfg))
+def show(kind, n, dt, cfg, perm=None):
+    return "%s n=%d default_truth=%r inputs=[%s]%s" % (
+        kind, n, dt, "; ".join("sel=%r truth=%r imp=%r value=%r" % c for c in cfg),
+        " insels/inimps shares pre-created with field order %s" % (list(perm),) if perm else "")
 
 
 def work(job):
@@ -147,10 +159,13 @@ def work(job):
 
 def _work(job):
     core.use_repo()
-    family, kind, n, dt_init, i0 = job
+    family, kind, n, dt_init, i0 = job[:5]
+    perm = job[5] if len(job) > 5 else None
     p = core.Part()
     try:
-        act, arb, shares = world(kind, n, dt_init)
+        act, arb, shares = world(kind, n, dt_init, perm)
+        if perm and list(arb.insels.keys()) != ["t%d" % j for j in perm]:
+            raise core.BrokenCheck("pre-existing insels share does not have the permuted field order: %r" % (list(arb.insels.keys()),))
     except core.BrokenCheck:
         raise
     except Exception as ex:
@@ -192,7 +207,7 @@ def _work(job):
         try:
             act()
         except Exception as ex:
-            p.violation("%s|raises %s: %s" % (kind, type(ex).__name__, ex), show(kind, n, dt, cfg),
+            p.violation("%s|raises %s: %s" % (kind, type(ex).__name__, ex), show(kind, n, dt, cfg, perm),
                         "%s.update raised %r; the rule selects %s" % (kind, ex, exp if exp[0] != "average" else "the weighted average"),
                         dict(kind=kind, default=dict(value=DEFAULT_VALUE, truth=dt), expected=repr(exp),
                              inputs=[dict(selection=s, truth=t, importance=m, value=v) for s, t, m, v in cfg],
@@ -221,13 +236,13 @@ def _work(job):
         p.outcome("%s:%s" % (kind, exp[0] if exp[0] != "input" else "input %d" % exp[1]))
         if not ok:
             kindof = "output-not-written" if gv == SENTINEL or gt == SENTINEL else "wrong-output-expected-%s" % exp[0]
-            p.violation("%s|%s" % (kind, kindof), show(kind, n, dt, cfg), "%s output (%r, %r), the rule gives %s" % (kind, gv, gt, want),
+            p.violation("%s|%s" % (kind, kindof), show(kind, n, dt, cfg, perm), "%s output (%r, %r), the rule gives %s" % (kind, gv, gt, want),
                         dict(kind=kind, default=dict(value=DEFAULT_VALUE, truth=dt), got=dict(value=gv, truth=gt), expected=want,
                              inputs=[dict(selection=s, truth=t, importance=m, value=v) for s, t, m, v in cfg]))
         if not same(default.value, DEFAULT_VALUE) or not same(default.truth, dt):
             raise core.BrokenCheck("default share changed")
         if count % 1499 == 7:
-            p.sample(dict(case=show(kind, n, dt, cfg), output=[gv, gt], rule=repr(exp)), limit=1)
+            p.sample(dict(case=show(kind, n, dt, cfg, perm), output=[gv, gt], rule=repr(exp)), limit=1)
     return p
 
 
@@ -279,6 +294,13 @@ def run():
                     jobs.append(("main", kind, n, dt, i0))
             for i0 in range(len(states(kind, n, 0, "selvariants"))):
                 jobs.append(("selvariants", kind, n, 0.5, i0))
+    import itertools as it
+    for n in (2, 3):
+        for perm in list(it.permutations(range(n)))[1:]:
+            for kind in KINDS:
+                for dt in (0.0, 0.5):
+                    for i0 in range(len(states(kind, n, 0, "permuted"))):
+                        jobs.append(("permuted", kind, n, dt, i0, perm))
     for n in (1, 2, 3):
         for kind in KINDS:
             for dt in (0.0, 0.5):
@@ -296,11 +318,13 @@ def run():
         "weighted arbiter: a selected input whose value is not a number gives the default outputs (docstring); zero total weight gives the default; "
         "the average is compared with exact rational arithmetic to 1e-12",
         "default truth is a float in [0, 1] set before construction (0.0, 0.5; int 0/1 and None -> 1.0 as small families); default value is a marker string",
+        "input order = the order of the inputs mapping given to the arbiter; the field order of the group's insels / inimps shares (which may exist before the "
+        "arbiter is built, in any order) carries no meaning",
         "arbiters are created by Act.resolve from the Doer registry inside a resolved House/Framer/Frame and run by calling the act",
     ]
     return ck.finish(
         rule="n inputs for n = 1..%d; per input selection x truth x importance x value = 2 x 7 x 2 x (2 or 3) states (n = 4: 2 x 5 x 2 x (1 or 3)), full product, "
-             "x default truth {0.0, 0.5} x 4 arbiters; extra families for n <= 2: default truth None / int, selection in {True, False, 1, 0, None, 'x', ''}; zero-importance family n <= 3: selection x truth {None, 0.25, 0.75} x importance {0, 0.0, 0.5, 1.0}. "
+             "x default truth {0.0, 0.5} x 4 arbiters; extra families for n <= 2: default truth None / int, selection in {True, False, 1, 0, None, 'x', ''}; permuted family n = 2, 3: group.insels / group.inimps pre-created with every non-identity field order, selection x truth {None, 0.25, 0.75} x importance {0.5, 1}; zero-importance family n <= 3: selection x truth {None, 0.25, 0.75} x importance {0, 0.0, 0.5, 1.0}. "
              "distinct = (arbiter, n, default truth, per-input (selected, normalised truth, importance)) with at least one selected input." % nmax,
         exhaustive=True)
 
